@@ -389,8 +389,41 @@ def function(job, nmax, mmax):
 JOB_TIMEOUT = {"quick": 500, "thorough": 3000}
 
 
+_HPTS = [(0.1, 313.15, 0.031), (0.4, 313.15, 0.054), (0.8, 313.15, 0.097), (0.2, 333.15, 0.05), (0.6, 333.15, 0.11), (0.9, 333.15, 0.16)]
+
+
+def concrete_single(inp):
+    """one fit, made first in its interpreter: the reference of concrete_history"""
+    f = opt.fit(Measurements(data=[Measurement(*p) for p in _HPTS]), n=1, m=1, include_zero=bool(inp["include_zero"]), component_index=int(inp["component_index"]))
+    return {"ok": True, "detail": "", "coef": [float(f.alpha)] + [float(v) for v in f.a] + [float(v) for v in f.b]}
+
+
+def concrete_history(inp):
+    """equal data give identical coefficients whatever was fitted before: the four (include_zero, component_index) fits of equal-valued
+    data one after the other in one interpreter, each compared with the same fit made first in a fresh interpreter -- a labelled
+    concrete point (a call history; scipy's optimiser is real here)"""
+    from .. import core
+    bad = []
+    order = [(True, 0), (True, 1), (False, 1), (False, 0), (True, 1), (True, 0)]
+    for iz, ci in order:
+        f = opt.fit(Measurements(data=[Measurement(*p) for p in _HPTS]), n=1, m=1, include_zero=iz, component_index=ci)
+        got = [float(f.alpha)] + [float(v) for v in f.a] + [float(v) for v in f.b]
+        ref = core._replay_in_fresh_process("vf.props.C16:concrete_single", {"include_zero": iz, "component_index": ci})
+        if not ref or "coef" not in ref:
+            continue
+        if len(got) != len(ref["coef"]) or not all(close(a, b, 1e-9, 1e-12) for a, b in zip(got, ref["coef"])):
+            bad.append("fit(include_zero=%s, component_index=%d) after %d other fits of equal data gives %r, made first in a fresh interpreter %r"
+                       % (iz, ci, order.index((iz, ci)), got, ref["coef"]))
+    return {"ok": not bad, "detail": "; ".join(bad[:2]), "inputs": inp}
+
+
+def history(job):
+    job.bound(history_length=6)
+    job.refute_concretely("C16/history/equal_data_equal_coefficients_whatever_was_fitted_before", "vf.props.C16:concrete_history", {})
+
+
 def jobs(tier):
-    js = []
+    js = [("history", "history", {})]
     npts = (3,) if tier == "quick" else (3, 4)
     for p in npts:
         for entry in ("fit", "find_best_fit"):
